@@ -163,7 +163,7 @@ impl Case {
             None => "None".to_string(),
             Some(t) => {
                 let dims: Vec<i64> = t.dims.iter().map(|d| *d as i64).collect();
-                format!("Some (mkInW {} {} {})", t.dtype.coq(), zzl(&dims), zzl(&t.data))
+                format!("Some (mkInW {} {} {})", t.dtype.coq(), zzl(&dims), zzw(&t.data))
             }
         }).collect();
         format!("mkCase \"{}\" {} {} [{}] [{}] ({})",
@@ -178,6 +178,20 @@ pub fn zz(v: i64) -> u64 {
 }
 pub fn zzl(vs: &[i64]) -> String {
     format!("[{}]", vs.iter().map(|v| zz(*v).to_string()).collect::<Vec<_>>().join(";"))
+}
+/// Value list in the `wire` format: `(P n [..])` packs seven zigzag bytes per literal when every
+/// encoded value is below 256, `(W [..])` is one literal per value.
+pub fn zzw(vs: &[i64]) -> String {
+    if vs.len() >= 4 && vs.iter().all(|v| zz(*v) < 256) {
+        let lits: Vec<String> = vs.chunks(7).map(|c| {
+            let mut lit: u64 = 0;
+            for (j, v) in c.iter().enumerate() { lit |= zz(*v) << (8 * j); }
+            lit.to_string()
+        }).collect();
+        format!("(P {} [{}])", vs.len(), lits.join(";"))
+    } else {
+        format!("(W {})", zzl(vs))
+    }
 }
 
 // ------------------------------------------------------------------ protobuf writer
@@ -261,17 +275,17 @@ impl Case {
 fn fmt_out(v: &Value) -> String {
     let dims = |s: &[usize]| zzl(&s.iter().map(|d| *d as i64).collect::<Vec<_>>());
     match v {
-        Value::Int32Tensor(t) => format!("OTW KInt {} {}", dims(t.shape()), zzl(&t.iter().map(|x| *x as i64).collect::<Vec<_>>())),
-        Value::Int8Tensor(t) => format!("OTW KI8 {} {}", dims(t.shape()), zzl(&t.iter().map(|x| *x as i64).collect::<Vec<_>>())),
-        Value::UInt8Tensor(t) => format!("OTW KU8 {} {}", dims(t.shape()), zzl(&t.iter().map(|x| *x as i64).collect::<Vec<_>>())),
+        Value::Int32Tensor(t) => format!("OTW KInt {} {}", dims(t.shape()), zzw(&t.iter().map(|x| *x as i64).collect::<Vec<_>>())),
+        Value::Int8Tensor(t) => format!("OTW KI8 {} {}", dims(t.shape()), zzw(&t.iter().map(|x| *x as i64).collect::<Vec<_>>())),
+        Value::UInt8Tensor(t) => format!("OTW KU8 {} {}", dims(t.shape()), zzw(&t.iter().map(|x| *x as i64).collect::<Vec<_>>())),
         Value::FloatTensor(t) => {
             if t.iter().all(|x| x.is_finite() && x.fract() == 0.0 && x.abs() < 2147483648.0) {
-                format!("OTW KFloat {} {}", dims(t.shape()), zzl(&t.iter().map(|x| *x as i64).collect::<Vec<_>>()))
+                format!("OTW KFloat {} {}", dims(t.shape()), zzw(&t.iter().map(|x| *x as i64).collect::<Vec<_>>()))
             } else {
-                format!("OTW KBadFloat {} []", dims(t.shape()))
+                format!("OTW KBadFloat {} (W [])", dims(t.shape()))
             }
         }
-        _ => "OTW KOther [] []".to_string(),
+        _ => "OTW KOther [] (W [])".to_string(),
     }
 }
 
